@@ -214,6 +214,84 @@ pub fn check_diff(case: &DiffCase) -> CaseResult {
     result
 }
 
+/// Every in-domain tree (1/den of them) x the whole call alphabet. `unprivileged`: ownership-changing
+/// calls are left out (an unprivileged process may not chown; Memfs has no such notion).
+pub fn sweep_trees(c: &Ctx, den: u64, unprivileged: bool) {
+    let trees = c09::all_trees();
+    let arg_paths = ["/", "/a", "/b", "/a/a", "/a/b", "/b/a", "/b/b", "/c", "/a/c", "/ab"];
+    par_for(trees.len() as u64, 1, |ti| {
+        if !sampled(c.seed, if unprivileged { 207 } else { 200 }, ti, 1, den) {
+            return;
+        }
+        let setup = match setup_for(&trees[ti as usize]) {
+            Some(s) => s,
+            None => {
+                c.exclude(1);
+                return;
+            },
+        };
+        let tree = tree_from_dump(&c09::build(&trees[ti as usize]).verif_dump());
+        if unprivileged && tree.nodes.values().any(|n| n.owner() != (DEF_UID, DEF_GID)) {
+            c.exclude(1);
+            return;
+        }
+        let mut calls: Vec<Op> = vec![];
+        for p in arg_paths {
+            if through_link(&tree, p) {
+                c.exclude(1);
+                continue;
+            }
+            let arg = if p == "/" { "@".to_string() } else { format!("@{}", p) };
+            calls.extend(single_path_ops(&arg, false).into_iter().filter(|o| !matches!(o, Op::SetCwd(_)) && !(unprivileged && matches!(o, Op::Chown(..) | Op::ChownB(..)))));
+        }
+        for a in arg_paths {
+            for b in arg_paths {
+                if through_link(&tree, a) || through_link(&tree, b) {
+                    c.exclude(1);
+                    continue;
+                }
+                let f = |p: &str| if p == "/" { "@".to_string() } else { format!("@{}", p) };
+                calls.extend(two_path_ops(&f(a), &f(b), false));
+            }
+        }
+        let mut fps = vec![];
+        for (ci, call) in calls.iter().enumerate() {
+            let case = DiffCase { setup: setup.clone(), calls: vec![call.clone()] };
+            if ci % 50 == 0 {
+                mark("diff", &serde_json::to_string(&case).unwrap());
+            } else {
+                tick();
+            }
+            c.eval(1);
+            let exists = call.paths().first().map(|p| tree.nodes.contains_key(&p.replace('@', "")) || *p == "@").unwrap_or(false);
+            if exists {
+                fps.push(fp(&(ti, ci, unprivileged)));
+            }
+            if ti % 401 == 0 && ci % 211 == 0 {
+                c.sample(|| json!({"kind":"diff","case":case}));
+            }
+            c.judge("diff", &case, check_diff(&case));
+        }
+        c.nontrivial_many(&mut fps);
+    });
+}
+
+/// `rvh c02-unpriv <tier> <seed>`: drop to uid/gid 65534 for good, run a sample of the sweep, print a summary
+pub fn unprivileged_worker(tier: Tier, seed: u64) {
+    unsafe {
+        libc::umask(0o022);
+        if libc::setgroups(0, std::ptr::null()) != 0 || libc::setresgid(65534, 65534, 65534) != 0 || libc::setresuid(65534, 65534, 65534) != 0 {
+            println!("WORKER-SUMMARY {}", json!({"evaluations": 0, "violations": [], "known": [], "inconclusive": ["cannot drop privileges (not running as root?)"]}));
+            return;
+        }
+    }
+    let c = Ctx::init("C02", tier, seed, true);
+    start_watchdog();
+    sweep_trees(&c, tier.pick(24, 3), true);
+    crate::sandbox::cleanup();
+    println!("WORKER-SUMMARY {}", c.export());
+}
+
 /// tree_from_disk keys are relative to the root; make them absolute again
 fn rekey(t: &mut Tree, root: &str) {
     let nodes = std::mem::take(&mut t.nodes);
@@ -275,8 +353,8 @@ fn setup_for(t: &c09::TreeSpec) -> Option<Vec<Op>> {
 }
 
 pub fn run(c: &Ctx) {
-    c.set_rule("(a) every tree of the C09 namespace that lies in the property's pre-state domain (every link resolves to an existing non-link entry), mirrored under the same absolute sandbox prefix in Memfs and - from the Memfs dump, with std::fs only - on tmpfs; the two independent observers must agree before the call; x every single-path call form (44) on 9 argument paths and every two-path form (copy, move_p, symlink) on all ordered pairs; arguments through a link as an intermediate component are excluded by construction (counted). quick: a seeded quarter of the trees; thorough: all. (b) proptest histories of up to 25 calls from small random states (the step that leaves the domain is still compared, the history stops there). Oracle: same Ok/Err outcome, same values (owners after renaming each backend's default owner, unordered traversals as multisets), same tree seen by an independent std::fs walker (names, kinds, bytes, link targets, permission bits). Config: umask as inherited, euid 0. Non-trivial = call whose target exists, or a failing call; distinct by (tree, call).");
-    c.assume("kernel + tmpfs semantics of this sandbox; euid 0 only (an unprivileged euid would need a forked worker; not built); set_cwd/cwd are compared in a dedicated serial step because the process cwd is global");
+    c.set_rule("(a) every tree of the C09 namespace that lies in the property's pre-state domain (every link resolves to an existing non-link entry), mirrored under the same absolute sandbox prefix in Memfs and - from the Memfs dump, with std::fs only - on tmpfs; the two independent observers must agree before the call; x every single-path call form (44) on 9 argument paths and every two-path form (copy, move_p, symlink) on all ordered pairs; arguments through a link as an intermediate component are excluded by construction (counted). quick: a seeded quarter of the trees; thorough: all. (b) proptest histories of up to 25 calls from small random states (the step that leaves the domain is still compared, the history stops there). Oracle: same Ok/Err outcome, same values (owners after renaming each backend's default owner, unordered traversals as multisets), same tree seen by an independent std::fs walker (names, kinds, bytes, link targets, permission bits). Config: umask 022; euid 0 for everything and euid 65534 (a worker process that dropped privileges; ownership-changing calls left out, 1/24 resp. 1/3 of the trees) for the tree x call sweep. Non-trivial = call whose target exists, or a failing call; distinct by (tree, call).");
+    c.assume("kernel + tmpfs semantics of this sandbox; euid sampled at 0 and 65534 only; set_cwd/cwd are compared in a dedicated serial step because the process cwd is global");
     unsafe {
         libc::umask(0o022);
     }
@@ -307,63 +385,23 @@ pub fn run(c: &Ctx) {
         let _ = std::env::set_current_dir("/");
     }
     // (a) trees x calls
-    let trees = c09::all_trees();
-    let den = c.tier.pick(4, 1);
-    let arg_paths = ["/", "/a", "/b", "/a/a", "/a/b", "/b/a", "/b/b", "/c", "/a/c", "/ab"];
-    par_for(trees.len() as u64, 1, |ti| {
-        if !sampled(c.seed, 200, ti, 1, den) {
-            return;
-        }
-        let setup = match setup_for(&trees[ti as usize]) {
-            Some(s) => s,
-            None => {
-                c.exclude(1);
-                return;
-            },
-        };
-        // tree in "/"-rooted form for classification
-        let tree = tree_from_dump(&c09::build(&trees[ti as usize]).verif_dump());
-        let mut calls: Vec<Op> = vec![];
-        for p in arg_paths {
-            if through_link(&tree, p) {
-                c.exclude(1);
-                continue;
-            }
-            let arg = if p == "/" { "@".to_string() } else { format!("@{}", p) };
-            calls.extend(single_path_ops(&arg, false).into_iter().filter(|o| !matches!(o, Op::SetCwd(_))));
-        }
-        for a in arg_paths {
-            for b in arg_paths {
-                if through_link(&tree, a) || through_link(&tree, b) {
-                    c.exclude(1);
-                    continue;
-                }
-                let f = |p: &str| if p == "/" { "@".to_string() } else { format!("@{}", p) };
-                calls.extend(two_path_ops(&f(a), &f(b), false));
-            }
-        }
-        let mut fps = vec![];
-        for (ci, call) in calls.iter().enumerate() {
-            let case = DiffCase { setup: setup.clone(), calls: vec![call.clone()] };
-            if ci % 50 == 0 {
-                mark("diff", &serde_json::to_string(&case).unwrap());
-            } else {
-                tick();
-            }
-            c.eval(1);
-            let exists = call.paths().first().map(|p| tree.nodes.contains_key(&p.replace('@', "")) || *p == "@").unwrap_or(false);
-            if exists {
-                fps.push(fp(&(ti, ci)));
-            }
-            if ti % 401 == 0 && ci % 211 == 0 {
-                c.sample(|| json!({"kind":"diff","case":case}));
-            }
-            c.judge("diff", &case, check_diff(&case));
-        }
-        c.nontrivial_many(&mut fps);
-    });
-    if den == 1 {
+    sweep_trees(c, c.tier.pick(4, 1), false);
+    if c.tier == Tier::Thorough {
         c.set_exhaustive(true);
+    }
+    // the same sweep (a sample) from a worker process that dropped to an unprivileged euid
+    match std::env::current_exe().ok().and_then(|exe| std::process::Command::new(exe).args(["c02-unpriv", c.tier.name(), &c.seed.to_string()]).env("VERIF_DIR", &c.verif_dir).output().ok()) {
+        Some(out) => {
+            let text = String::from_utf8_lossy(&out.stdout);
+            match text.lines().find_map(|l| l.strip_prefix("WORKER-SUMMARY ")).and_then(|j| serde_json::from_str::<Value>(j).ok()) {
+                Some(v) => {
+                    c.import(&v, "euid-65534");
+                    c.note("unprivileged_worker", json!({"euid": 65534, "evaluations": v["evaluations"], "violations": v["violations"].as_array().map(|a| a.len())}));
+                },
+                None => c.inconclusive(&format!("unprivileged worker gave no summary (status {:?}): {}", out.status.code(), text.chars().rev().take(300).collect::<String>().chars().rev().collect::<String>())),
+            }
+        },
+        None => c.inconclusive("could not start the unprivileged worker"),
     }
     // (b) histories
     let n = c.tier.pick(400, 6000);
